@@ -523,11 +523,19 @@ impl PartitionnedMonotonic<Intervals<f64>, (f64,), Term<Intervals<f64>, Unit>, f
         let period = max - min;
         // Compute the shifted version of the set (by an integer number of period) and intersect with partitions
         let partition = move |set: Intervals<f64>| {
-            let shift = ((*set.min().unwrap() - min) / period).floor();
+            // Shift each interval of the set by its own integer number of periods: the intervals of a set can be many periods apart
             let shifted = set
-                .clone()
-                .map_bounds(move |b| b - shift * period)
-                .union(set.map_bounds(|b| b - (shift + 1.) * period));
+                .into_iter()
+                .fold(Intervals::empty(), |shifted, [lo, hi]| {
+                    if hi - lo >= period {
+                        shifted.union_interval(min, max)
+                    } else {
+                        let shift = ((lo - min) / period).floor();
+                        shifted
+                            .union_interval(lo - shift * period, hi - shift * period)
+                            .union_interval(lo - (shift + 1.) * period, hi - (shift + 1.) * period)
+                    }
+                });
             partitions
                 .as_ref()
                 .iter()
